@@ -235,7 +235,7 @@ PROPS = {
         lemmas={'REASM': ['lemma_concat_push', 'lemma_concat_one'], 'BYTEREADER': ['lemma_after_take', 'lemma_flat_drained']},
         assumptions=[ASYNC,
             'a multi-frame delivery buffers fewer than 2^32 bytes (otherwise the u32 section counter of IncompleteTransfer::append could overflow)',
-            'the chained-buffer byte reader behind multi-frame decoding (util::ByteReader<Payload> as io::Read) is under contract in unit BYTEREADER: a read yields the concatenation of the frames\' payloads wherever they were cut; count_number_of_sections_and_offset is iterator/adapter code outside the Verus subset: assumed contract',
+            'the chained-buffer byte reader behind multi-frame decoding (util::ByteReader<Payload> as io::Read) is under contract in unit BYTEREADER: a read yields the concatenation of the frames\' payloads wherever they were cut; count_number_of_sections_and_offset and is_section_header are under contract in unit REASM (the three zipped byte iterators written as the index loop they perform, R34): the count is the number of section headers in the frame\'s payload, the offset the distance from the last of them to the end',
             'in unit REASM the link endpoint is a ghost-trace stand-in (on_complete_transfer decodes exactly the bytes it is given; on_transfer_state / on_incomplete_transfer are logged); the real ReceiverLink::on_complete_transfer / on_transfer_state / on_incomplete_transfer are under contract in unit LINK (unsettled-map bookkeeping, credit), with the message decoder behind them a stand-in',
             'resumption: ReceiverInner::on_resuming_transfer is under contract in unit REASM (a resuming transfer for another delivery is not spliced with the buffered one); trimming the buffer to the sender\'s resume point (keep_buffer_till_section_number_and_offset) is an assumed contract (it only trims)',
             'interleaving with other links of the session is the routing contract of unit SESSION (C11.route.transfer)']),
@@ -276,7 +276,7 @@ PROPS = {
             'NOT DECIDED: what a dropped future does inside library futures; the Detach arm of recv_inner and Sender::send\'s wait for the outcome; starvation dynamics under repeated cancellation beyond the per-call credit leak; duplicates (none possible in the functions under contract: a frame leaves the channel once)',
             ASYNC]),
     'C15': dict(
-        units=['SESSION', 'CONN', 'FRAMEDEC', 'LINK', 'CONNENG', 'TRANSPORT', 'SEQACCESS', 'ACCSESS', 'LINKATTACH', 'FRAMEENC', 'SASLMECH', 'SESSENG', 'READERS', 'TIMERS', 'TXN', 'BYTEREADER'], kani=[], level='proof', title='Misbehaving peer',
+        units=['SESSION', 'CONN', 'FRAMEDEC', 'LINK', 'CONNENG', 'TRANSPORT', 'SEQACCESS', 'ACCSESS', 'LINKATTACH', 'FRAMEENC', 'SASLMECH', 'SESSENG', 'READERS', 'TIMERS', 'TXN', 'BYTEREADER', 'REASM'], kani=[], level='proof', title='Misbehaving peer',
         assumptions=[ASYNC, ENGINE,
             'never-blocks-forever and isolation between connections are not decided',
             'handlers of peer input carry no precondition on the peer-controlled arguments']),
